@@ -121,7 +121,7 @@ class MapState:
 
 
 class State:
-    __slots__ = ('aux', 'ghost', 'loops', 'frames', 'fmeta', 'objs', 'maps', 'zone', 'events', 'unwinding', 'depth',
+    __slots__ = ('guards', 'aux', 'ghost', 'loops', 'frames', 'fmeta', 'objs', 'maps', 'zone', 'events', 'unwinding', 'depth',
                  'next_id', 'assumed', 'notes', 'keep', 'pairs')
 
     def __init__(self):
@@ -137,6 +137,7 @@ class State:
         self.assumed = ()
         self.notes = ()
         self.keep = frozenset()   # heap cells that model caller-owned memory (never collected)
+        self.guards = ()          # decided comparisons between entry-state quantities (arguments, entry lens, N): kept apart at joins
         self.aux = ()             # ((hi, lo, d), ...): auxiliary difference terms, d == hi - lo exactly (DESIGN 14.14)
         self.ghost = {}           # loop key -> (term, container ids): ghost counter of kept elements (count schemas)
         self.loops = ()           # keys of the loops this path is currently inside, outermost first
@@ -160,6 +161,7 @@ class State:
         s.loops = self.loops
         s.ghost = dict(self.ghost)
         s.aux = self.aux
+        s.guards = self.guards
         return s
 
     def new_id(self, prefix):
